@@ -434,6 +434,9 @@ def report(prop, tier, sel, results, inj_log, wall, write_evidence=True):
                 if c.get("role") == "obligation":
                     samples += c.get("samples", [])[:1]
             lines.append("PASS unit=%s kind=%s checks=%d time=%.1fs" % (u["id"], u["kind"], n_checks, t))
+            stale = os.path.join(VERIF, "replays", prop, u["id"] + ".json")
+            if os.path.exists(stale):
+                os.remove(stale)
         elif st == "FAIL":
             viol += 1
             rr = ur.get("replay_result", "no-values")
